@@ -25,10 +25,12 @@ type Draw struct {
 // happens non-deterministically) are answered out of band and do not advance
 // the stream, so a transcript is a pure function of the seed.
 type Rand struct {
-	Seed  uint64
-	idx   int
-	Draws []*Draw
-	Epoch int
+	Seed   uint64
+	idx    int
+	hist   uint64
+	nShort int
+	Draws  []*Draw
+	Epoch  int
 
 	// fault injection: the read with index FailAt (>=0) fails.
 	FailAt   int
@@ -53,6 +55,21 @@ var ShortExps = [][]byte{
 	mustHex("fa88c211a5d694fb837aa1e209b06b86ec4f1ea3fde4f91b84bad61f6d6db866bc7bebae2703090b"),
 	mustHex("8c97c9e0db858dd7a4e50b9c2afd074bf2e36910a90bf8465f62093d7b87b0bfd1207567e6cb901f"),
 	mustHex("45c0ec9c26b58028d3fa9097e92db3049598ce23aa1c6ab020472c439fa2656c333d2ee564292372"),
+	mustHex("852aabefca2dbd2f4706ef97670d18f9213b2edbe856cbe00be59f1a2c3288e88d0120c92e87e2e3"),
+	mustHex("ebb3f390c8ebb077293f4dba6931cb997f3988f47509e2719381b1b44a3a6af68ba1f5066161a282"),
+	mustHex("8a6e62571e10890a5172352e0955d64c357d5f2c7a057d7b9034326c3be2a4b97b28d9cfd1e68511"),
+	mustHex("8440c7deea2bb0c27082b0a3a0686ffe378fc61f2785b88f47047b49e30887dd1fbfd5c9452d2cca"),
+	mustHex("9bcff4e7af3e5cc6459e4cedeb1d19dfe3e3cad2e998eb67311474849fde336a67b1fef99d40886c"),
+	mustHex("5d5476fdce7e42e7aca7526bf926ac4e2526e38a8a5e3f9bad0f897290a0466cc499f437a752440e"),
+}
+
+// ArmShort makes the next 40-byte read of the source yield one of the short-public-value exponents. The two
+// parties of a world draw from disjoint halves of the list (two honest parties never hold the same key), and
+// each party walks through its half, so a repetition is six key generations away from the original.
+func (r *Rand) ArmShort(party int) {
+	half := len(ShortExps) / 2
+	r.Force40 = append(r.Force40, ShortExps[(party&1)*half+r.nShort%half])
+	r.nShort++
 }
 
 func mustHex(s string) []byte {
@@ -94,6 +111,7 @@ func (r *Rand) Read(p []byte) (int, error) {
 	}
 	i := r.idx
 	r.idx++
+	r.hist = (r.hist ^ uint64(i)<<20 ^ uint64(len(p))) * 1099511628211
 	if r.FailAt >= 0 && i >= r.FailAt && (r.FailFor <= 0 || i < r.FailAt+r.FailFor) {
 		r.Failed++
 		switch r.FailMode {
@@ -123,6 +141,10 @@ func (r *Rand) Read(p []byte) (int, error) {
 	r.Draws = append(r.Draws, &Draw{Idx: i, N: len(p), Data: data, Alias: p, Epoch: r.Epoch})
 	return len(p), nil
 }
+
+// History is a digest of the sequence of reads made so far (index and size of each): two sources with the same
+// seed and the same History have handed out exactly the same bytes.
+func (r *Rand) History() uint64 { return r.hist }
 
 // Reads returns the number of non-trivial reads served or attempted so far.
 func (r *Rand) Reads() int { return r.idx }
